@@ -162,7 +162,8 @@ def proof_leg(pid: str, extra_modules=(), leanchecker=False) -> Proof:
         elif not set(pr.axioms[t]) <= ALLOWED_AXIOMS:
             pr.errors.append(f'{t} depends on {pr.axioms[t]}')
     if leanchecker and pr.build_ok:
-        r = lake(['env', 'leanchecker', f'Homonim.Props.{pid}'], timeout=3600)
+        # the property's own module and every tie / end-to-end module audited with it
+        r = lake(['env', 'leanchecker', f'Homonim.Props.{pid}'] + tie_modules, timeout=3600)
         if r.returncode != 0:
             pr.errors.append('leanchecker: ' + (r.stdout + r.stderr)[-2000:])
             pr.build_ok = False
